@@ -1,0 +1,9 @@
+//go:build verif
+
+package ntske
+
+// VerifC11SetData preloads the fetcher's cached key exchange data (keys and cookie pool).
+func (f *Fetcher) VerifC11SetData(d Data) { f.data = d }
+
+// VerifC11Cookies returns the fetcher's current cookie pool.
+func (f *Fetcher) VerifC11Cookies() [][]byte { return f.data.Cookie }
